@@ -230,7 +230,7 @@ def run(ctx):
     from rules import mergerules as mr
     folding = select(F, PFX, [IMP, r"^&lef21::LefMacro$"], r"Result<.*Abstract,") + select(F, PFX, [IMP, r"^&lef21::LefPin$"], r"Result<.*AbstractPort,")
     mr.rule_no_lossy_map_merge(ctx, "R16.4m", folding, floor=0, what="LEF text (several OBS / PORT / LAYER statements on one layer)")
-    mr.rule_no_overwrite_in_loop(ctx, "R16.4o", [PFX], floor=1)
+    mr.rule_no_overwrite_in_loop(ctx, "R16.4o", [PFX], floor=0)
 
     # ---- R16.6 names are kept and matched exactly
     ctx.rule("R16.6", "layer, pin and macro names are taken over and looked up exactly as written: the LEF importer does no case folding (LEF names are case-sensitive; `m1` and `M1` are different layers)")
@@ -254,8 +254,8 @@ def run(ctx):
     # ---- R16.4 every geometry imported or error
     for f in select(F, PFX, [IMP, r"^&lef21::LefLayerGeometries$"], r"Result<\(.*LayerKey, .*Vec<.*Shape>\),"):
         b = Body(f)
-        pushes = [bi for bi, t in b.calls() if re.search(r"Vec::<.*>::push$", callee_name(t) or "")]
-        loops = od.loop_iterations_all_call(b, pushes)
+        why_ = []
+        loops = od.every_item_handled(F, f, lambda t: bool(re.search(r"Vec::<.*>::push$|Iterator>?::collect$|FromIterator<.*>>?::from_iter$|Extend<.*>>?::extend$", callee_name(t) or "")), why_)
         if loops and all(ok for h, ok in loops):
             ctx.ok("R16.4", f.short, "every geometry is pushed")
         else:
